@@ -158,6 +158,7 @@ impl CompetitionReal {
             merge_window: *rc.pick(&[1i64, 5, 30, 3600]),
             faults: run % 2 == 1,
             profile: "real".into(),
+            c19_twins: false,
         };
         let mut rp = Rng::derive(seed, run, "plan");
         let n = rp.usize(2, 9);
